@@ -413,7 +413,9 @@ def oracle_api(run):
         "y_axis": ["force", "height (piezo)"],
         "method": ["leastsq", "nelder", "least_squares"],
         "method_kws": [{}, {"ftol": 1e-9}, {"ftol": 1e-8},
-                       {"ftol": 1e-9, "xtol": 1e-9}, {"max_nfev": 50}],
+                       {"ftol": 1e-9, "xtol": 1e-9}, {"max_nfev": 50},
+                       # (the same values under other keywords)
+                       {"xtol": 1e-9}, {"ftol": 1e-9, "gtol": 1e-9}],
         "optimal_fit_edelta": [False, True],
     }
     pdomain = [
